@@ -424,9 +424,9 @@ MC_RUNS = {
               ("ForksNever", 6, ["NeverSlashes", "NeverExits", "NeverDeposits", "NeverJustifies"])],
     "thorough": [("ForksSpread", 8, ["NeverSlashes", "NeverExits", "NeverDeposits", "NeverAltair", "NeverBellatrix",
                                       "NeverCapella", "NeverDeneb", "NeverJustifies", "NeverFinalizes", "NeverWithdraws"]),
-                 ("ForksEarly", 8, ["NeverDeneb", "NeverFinalizes", "NeverWithdraws", "NeverActivatesDeposit"]),
-                 ("ForksNever", 8, ["NeverSlashes", "NeverExits", "NeverFinalizes"]),
-                 ("ForksAltairOnly", 8, ["NeverAltair", "NeverFinalizes"])],
+                 ("ForksEarly", 6, ["NeverDeneb", "NeverWithdraws", "NeverJustifies"]),
+                 ("ForksNever", 7, ["NeverSlashes", "NeverExits", "NeverJustifies"]),
+                 ("ForksAltairOnly", 6, ["NeverAltair", "NeverJustifies"])],
 }
 
 
@@ -449,7 +449,7 @@ def mc_sanity(tier, workers=4):
     def one(job):
         forks, ms, mode, invs = job
         wd = lib.fresh_spec_copy({"mc.cfg": _mc_cfg(forks, ms, invs)})
-        res = lib.tlc("BeaconMC", cfg="mc.cfg", workdir=wd, workers=(workers if mode == "inv" else 2), timeout=2400,
+        res = lib.tlc("BeaconMC", cfg="mc.cfg", workdir=wd, workers=((8 if ms >= 8 else workers) if mode == "inv" else 2), timeout=2400,
                       java_opts="-Xss512m -XX:TieredStopAtLevel=1" if mode == "reach" else "-Xss512m")
         shutil.rmtree(wd, ignore_errors=True)
         if mode == "inv":
